@@ -4,14 +4,16 @@
 # Keeps confirmed ones under /verif/seeded/<prop>-<k>/ (patch.diff, demo/, meta.json).
 # usage: confirm_seeds.sh C01 C02 ...
 WT=/tmp/confirm/wt
+SEEDROOT=${SEEDROOT:-/tmp/seed}
+KOFF=${KOFF:-0}
 mkdir -p /tmp/confirm
 if [ ! -d $WT ]; then git -C /repo worktree add -q --detach $WT HEAD; fi
 export CARGO_NET_OFFLINE=true
 for id in "$@"; do
   for k in 1 2; do
-    S=/tmp/seed/$id/SEED
+    S=$SEEDROOT/$id/SEED
     [ -f $S/patch$k.diff ] || continue
-    name=$id-$k
+    name=$id-$((k+KOFF))
     git -C $WT checkout -q -- . ; git -C $WT clean -fdq -e target
     if ! git -C $WT apply $S/patch$k.diff 2>/tmp/confirm/$name.apply; then echo "$name: patch does not apply"; continue; fi
     (cd $WT && cargo test --workspace --no-fail-fast --offline >/tmp/confirm/$name.test 2>&1); trc=$?
